@@ -20,6 +20,12 @@ CLAIMS = {
          "forallb/existsb/filter/map corollaries for pure bodies. The expansions are tied to antlr/src/macros.rs and the evaluator "
          "to objects.rs by running every macro form over all lists of length 0-4 from a 4-value alphabet with raising and logging "
          "bodies, maps and nested macros, and by comparing the expansion itself with the real parser."),
+ "C11": ("Theorems on the scope-chain model of Context: a lookup returns the binding of the innermost scope that defines the "
+         "name (latest definition within a scope), fails iff no scope defines it; for every sequence of define/open/drop/lookup "
+         "operations the parent scopes below the open inner levels are unchanged; variables and functions are separate name spaces; "
+         "inside a macro body the iteration variable is the current element and every other name resolves as outside; a lookup after "
+         "a macro is the lookup in the original context. Tied to context.rs/objects.rs by exhaustive operation sequences (length <= 5 "
+         "quick, <= 7 thorough) against the real Context API and by nested-macro programs reusing variable and function names."),
  "C06": ("Theorems that Eval.eval (a structural Fixpoint transcribing Value::resolve) returns the left operand's outcome "
          "and host-call log alone when && / || are decided by it, evaluates exactly one branch of ?:, and propagates a "
          "left error - for every context and operand expression, hence at every depth and inside macro bodies. Tied to the "
